@@ -14,6 +14,7 @@ from typing import Mapping
 from typing import MutableMapping
 from typing import MutableSequence
 from typing import Sequence
+from typing import Tuple
 from typing import TypeVar
 from typing import Union
 
@@ -26,6 +27,22 @@ from jsonpath.exceptions import JSONPointerKeyError
 from jsonpath.exceptions import JSONPointerTypeError
 from jsonpath.pointer import UNDEFINED
 from jsonpath.pointer import JSONPointer
+
+
+def _resolve_parent(
+    pointer: JSONPointer,
+    data: Union[MutableSequence[object], MutableMapping[str, object]],
+) -> Tuple[object, object]:
+    """Resolve _pointer_ against _data_, the JSON value being patched.
+
+    `JSONPointer.resolve_parent()` accepts JSON text, so it would parse a document
+    that is - or has been replaced by - a string value instead of using it as is.
+    """
+    if not pointer.parts:
+        return (None, data)
+    if isinstance(data, str):
+        raise JSONPointerTypeError(f"{pointer.parts[0]}: can't index into a string")
+    return pointer.resolve_parent(data)
 
 
 def _insert(
@@ -99,7 +116,7 @@ class OpAdd(Op):
         self, data: Union[MutableSequence[object], MutableMapping[str, object]]
     ) -> Union[MutableSequence[object], MutableMapping[str, object]]:
         """Apply this patch operation to _data_."""
-        parent, obj = self.path.resolve_parent(data)
+        parent, obj = _resolve_parent(self.path, data)
         if parent is None:
             # Replace the root object.
             # The following op, if any, will raise a JSONPatchError if needed.
@@ -138,7 +155,7 @@ class OpAddNe(OpAdd):
         self, data: Union[MutableSequence[object], MutableMapping[str, object]]
     ) -> Union[MutableSequence[object], MutableMapping[str, object]]:
         """Apply this patch operation to _data_."""
-        parent, obj = self.path.resolve_parent(data)
+        parent, obj = _resolve_parent(self.path, data)
         if parent is None:
             # Replace the root object.
             # The following op, if any, will raise a JSONPatchError if needed.
@@ -172,7 +189,7 @@ class OpAddAp(OpAdd):
         self, data: Union[MutableSequence[object], MutableMapping[str, object]]
     ) -> Union[MutableSequence[object], MutableMapping[str, object]]:
         """Apply this patch operation to _data_."""
-        parent, obj = self.path.resolve_parent(data)
+        parent, obj = _resolve_parent(self.path, data)
         if parent is None:
             # Replace the root object.
             # The following op, if any, will raise a JSONPatchError if needed.
@@ -207,7 +224,7 @@ class OpRemove(Op):
         self, data: Union[MutableSequence[object], MutableMapping[str, object]]
     ) -> Union[MutableSequence[object], MutableMapping[str, object]]:
         """Apply this patch operation to _data_."""
-        parent, obj = self.path.resolve_parent(data)
+        parent, obj = _resolve_parent(self.path, data)
         if parent is None:
             raise JSONPatchError("can't remove root")
 
@@ -245,7 +262,7 @@ class OpReplace(Op):
         self, data: Union[MutableSequence[object], MutableMapping[str, object]]
     ) -> Union[MutableSequence[object], MutableMapping[str, object]]:
         """Apply this patch operation to _data_."""
-        parent, obj = self.path.resolve_parent(data)
+        parent, obj = _resolve_parent(self.path, data)
         if parent is None:
             return self.value  # type: ignore
 
@@ -286,7 +303,7 @@ class OpMove(Op):
         if self.dest.is_relative_to(self.source):
             raise JSONPatchError("can't move object to one of its own children")
 
-        source_parent, source_obj = self.source.resolve_parent(data)
+        source_parent, source_obj = _resolve_parent(self.source, data)
 
         if source_obj is UNDEFINED:
             raise JSONPatchError("source object does not exist")
@@ -296,7 +313,7 @@ class OpMove(Op):
         if isinstance(source_parent, MutableMapping):
             del source_parent[str(self.source.parts[-1])]
 
-        dest_parent, _ = self.dest.resolve_parent(data)
+        dest_parent, _ = _resolve_parent(self.dest, data)
 
         if dest_parent is None:
             # Move source to root
@@ -333,12 +350,12 @@ class OpCopy(Op):
         self, data: Union[MutableSequence[object], MutableMapping[str, object]]
     ) -> Union[MutableSequence[object], MutableMapping[str, object]]:
         """Apply this patch operation to _data_."""
-        source_parent, source_obj = self.source.resolve_parent(data)
+        source_parent, source_obj = _resolve_parent(self.source, data)
 
         if source_obj is UNDEFINED:
             raise JSONPatchError("source object does not exist")
 
-        dest_parent, dest_obj = self.dest.resolve_parent(data)
+        dest_parent, dest_obj = _resolve_parent(self.dest, data)
 
         if dest_parent is None:
             # Copy source to root
@@ -375,7 +392,7 @@ class OpTest(Op):
         self, data: Union[MutableSequence[object], MutableMapping[str, object]]
     ) -> Union[MutableSequence[object], MutableMapping[str, object]]:
         """Apply this patch operation to _data_."""
-        _, obj = self.path.resolve_parent(data)
+        _, obj = _resolve_parent(self.path, data)
         if not _json_equal(obj, self.value):
             raise JSONPatchTestFailure
         return data
